@@ -420,6 +420,13 @@ impl<I: Interner> RenderAsRust<I> for AssociatedTyDatum<I> {
         let (_, assoc_ty_params) = s
             .db()
             .split_associated_ty_parameters(&binder_display_in_assoc_ty, self);
+        // lang item
+        if s.db()
+            .well_known_assoc_type_id(WellKnownAssocType::AsyncFnOnceOutput)
+            == Some(self.id)
+        {
+            write!(f, "#[lang(async_fn_once_output)] ")?;
+        }
         write!(f, "type {}", self.id.display(s))?;
         write_joined_non_empty_list!(f, "<{}>", assoc_ty_params, ", ")?;
 
